@@ -312,6 +312,122 @@ def do_partitions(c):
     return out
 
 
+# ----------------------------------------------------------------------------- seeded round 5: several threads at once
+
+def do_mt_sched(c):
+    """n threads call cext.disk_partitions(), each on its OWN named pipe; the parent process feeds the pipes line by line
+    (it decides when each thread's getmntent() can return) and drives the `holder` thread, which owns the GIL while it
+    sits in a blocking read made through ctypes.PyDLL (PyDLL calls keep the GIL)."""
+    import threading
+    n = len(c["fifos"])
+    old = sys.getswitchinterval()
+    sys.setswitchinterval(float(c.get("switch", 0.0003)))
+    c1 = os.open(c["ctl1"], os.O_RDONLY)
+    c2 = os.open(c["ctl2"], os.O_RDONLY)
+    keep = [os.open(p, os.O_RDONLY) for p in c["fifos"]]          # our copies of the read ends (see c17_thr.run_sched)
+    mpaths = ["/proc/self/fd/%d" % fd for fd in keep]
+    pydll = ctypes.PyDLL(None)
+    pydll.read.argtypes = [ctypes.c_int, ctypes.c_void_p, ctypes.c_size_t]
+    pydll.read.restype = ctypes.c_ssize_t
+    buf = ctypes.create_string_buffer(8)
+    results = [None] * n
+    gate = threading.Barrier(n + 1)
+
+    def holder():
+        while os.read(c1, 1) == b"h":        # GIL released while waiting for the order
+            pydll.read(c2, buf, 1)           # GIL HELD until the parent writes the `free` byte
+
+    def call(i):
+        gate.wait()
+        try:
+            raw = cext.disk_partitions(mpaths[i])
+            results[i] = {"kind": "ok", "rows": [[fs(a), fs(b), fs(t), fs(o)] for a, b, t, o in raw]}
+        except Exception as e:  # noqa: BLE001
+            results[i] = exc_obs(e)
+
+    h = threading.Thread(target=holder)
+    ths = [threading.Thread(target=call, args=(i,)) for i in range(n)]
+    try:
+        h.start()
+        for t in ths:
+            t.start()
+        gate.wait()
+        for t in ths:
+            t.join()
+        h.join()
+    finally:
+        sys.setswitchinterval(old)
+        for fd in [c1, c2] + keep:
+            os.close(fd)
+    return {"results": results}
+
+
+def do_mt_stress(c):
+    """k threads × r rounds of the same call, started together, with a tiny switch interval: every result must be the
+    single-threaded one (disk_partitions: each thread on its own regular file; users: one utmp file for all)."""
+    import threading
+    kind, k, rounds = c["kind"], int(c["threads"]), int(c["rounds"])
+    paths = []
+    if kind == "partitions":
+        for i, hx in enumerate(c["files"]):
+            pth = os.path.join(SCRATCH, "mt-mounts-%d" % i)
+            with open(pth, "wb") as f:
+                f.write(bytes.fromhex(hx))
+            paths.append(pth)
+
+        def one(i):
+            return [[fs(a), fs(b), fs(t), fs(o)] for a, b, t, o in cext.disk_partitions(paths[i % len(paths)])]
+    else:
+        pth = os.path.join(SCRATCH, "utmp")
+        with open(pth, "wb") as f:
+            f.write(bytes.fromhex(c["files"][0]))
+        libc.utmpname(pth.encode())
+
+        def one(i):
+            return [[fs(a), fs(b), fs(h), num(t), p] for a, b, h, t, p in cext.users()]
+    try:
+        single = [one(i) for i in range(k)]
+    except Exception as e:  # noqa: BLE001
+        return {"single": exc_obs(e)}
+    bad = []
+    calls = [0] * k
+    stop = threading.Event()
+    gate = threading.Barrier(k)
+    old = sys.getswitchinterval()
+
+    def body(i):
+        gate.wait()
+        for rnd in range(rounds):
+            if stop.is_set():
+                return
+            try:
+                got = one(i)
+            except Exception as e:  # noqa: BLE001
+                got = exc_obs(e)
+            calls[i] += 1
+            if got != single[i]:
+                idx = 0
+                if isinstance(got, list):
+                    while idx < min(len(got), len(single[i])) and got[idx] == single[i][idx]:
+                        idx += 1
+                bad.append({"thread": i, "round": rnd, "first_wrong_entry": idx, "n_got": len(got) if isinstance(got, list) else None,
+                            "n_want": len(single[i]), "got": got[idx:idx + 2] if isinstance(got, list) else got,
+                            "want": single[i][idx:idx + 2]})
+                stop.set()
+                return
+
+    ths = [threading.Thread(target=body, args=(i,)) for i in range(k)]
+    sys.setswitchinterval(float(c.get("switch", 1e-6)))
+    try:
+        for t in ths:
+            t.start()
+        for t in ths:
+            t.join()
+    finally:
+        sys.setswitchinterval(old)
+    return {"single": single, "bad": bad[:2], "calls": sum(calls)}
+
+
 # ----------------------------------------------------------------------------- round 2: Python-side wrappers
 
 def _obs(fn):
@@ -690,7 +806,7 @@ HANDLERS = {"users": do_users, "partitions": do_partitions, "call": do_call, "io
             "netif": do_netif, "ifaddrs": do_ifaddrs, "ifr": do_ifr, "sysinfo": do_sysinfo, "getprio": do_getprio,
             "entrypoints": do_entrypoints, "rootfs": do_rootfs, "netifstats": do_netifstats,
             "netifaddrs_front": do_netifaddrs_front, "ifaddrs_fail": do_ifaddrs_fail,
-            "ifr_sockfail": do_ifr_sockfail, "ifr_errmsg": do_ifr_errmsg, "partitions_mtab": do_partitions_mtab, "ping": lambda c: {"pong": os.getpid()}}
+            "ifr_sockfail": do_ifr_sockfail, "ifr_errmsg": do_ifr_errmsg, "partitions_mtab": do_partitions_mtab, "mt_sched": do_mt_sched, "mt_stress": do_mt_stress, "ping": lambda c: {"pong": os.getpid()}}
 
 
 def main():
